@@ -121,7 +121,7 @@ func (f *KVFake) WaitCaughtUp(budget int, deadline time.Duration) (ok bool, aske
 }
 
 func (f *KVFake) serve(w http.ResponseWriter, r *http.Request) {
-	if !strings.HasPrefix(r.URL.Path, "/v1/kv/"+f.Prefix) {
+	if strings.TrimSuffix(r.URL.Path, "/") != "/v1/kv/"+f.Prefix {
 		http.NotFound(w, r)
 		return
 	}
